@@ -3,8 +3,11 @@ from __future__ import annotations
 
 import itertools
 import os
+import shutil
+import socket
 import sys
-from urllib.parse import unquote, urljoin, urlsplit
+import unicodedata
+from urllib.parse import quote, unquote, urljoin, urlsplit
 
 from hypothesis import strategies as st
 
@@ -17,28 +20,70 @@ from harness.core import Result
 LEVEL = "exploration"
 RULES = {
     "grid": "exhaustive: every path of up to d segments over the alphabet {'', '.', '..', file, dir, '..name', '.hidden', '%2e%2e', "
-    "'index.html', 'x', 'x.html', 'y', missing, unicode, decoy names, 'static', 'static2', the site directory's name} with and without "
-    "leading/trailing slash, on 2 fixed layouts with parent/sibling decoys x Files/Pages x WSGI/ASGI x directory given as absolute / "
-    "relative / package-relative path x mounted under a prefix or not (mode rotates with the path index); non-trivial = path has a '..', "
+    "'index.html', 'x', 'x.html', 'y', missing, unicode, decoy names, 'static', 'static2', the site directory's name, upper-case and "
+    "dotted-stem names} with and without leading/trailing slash, on 2 fixed layouts with parent/sibling decoys x Files/Pages x WSGI/ASGI x "
+    "directory given as absolute / relative / package-relative path (also with trailing slash, unnormalised, as os.PathLike) x mounted "
+    "under a prefix or not x with/without a handle_404 application (modes rotate with the path index); non-trivial = path has a '..', "
     "a dotted/encoded name, reaches a decoy name or is a directory URL on Pages",
     "variants": "exhaustive: for every file and directory of the two fixed layouts and every decoy: the exact URL and 14 non-canonical, "
-    "escaping and re-entering variants x Files/Pages x WSGI/ASGI (modes rotating)",
+    "escaping and re-entering variants x Files/Pages x WSGI/ASGI (modes rotating); the layouts include look-alikes of the names the "
+    "pages app adds (index.htm, Index.html, name.htm, name.HTML, index.html.bak), an empty file, a 10-level path, directories whose "
+    "names need escaping in a Location; the mount point itself ('/mnt' -> path '') for every combination; a dozen URLs through a "
+    "server that owns the mount (SCRIPT_NAME / root_path) and omits every optional environ / scope key",
+    "names": "exhaustive: a layout whose entries have hostile but legal names (upper case, blanks, backslash, colon, tilde, '$VAR', '+', "
+    "glob and shell characters, control characters, NFC/NFD forms, non-BMP, trailing dots, 250-byte names), each as regular file, as "
+    "directory with index page and as '<name>.html' only, plus a unix socket: own URL, own URL + '/', and every near-miss spelling "
+    "(case-folded, stripped, re-normalised, separator-converted, plus<->blank, percent-encoded or -decoded once more) x Files/Pages x "
+    "WSGI/ASGI x mounted or not (quick tier: a near-miss goes to two of the four kind x side combinations); the near-miss must not be "
+    "answered with the neighbour's content",
+    "conditional": "exhaustive: every file, directory, decoy and missing name of the fixed layouts requested with 'If-None-Match: *', a "
+    "future If-Modified-Since, both, or a foreign tag: a 304 is only an answer where a 200 would have been one; everything else as without "
+    "validators",
+    "sequence": "enumerated histories on ONE application object over a private tree that changes between the requests (file created, "
+    "rewritten longer/shorter, removed, replaced by a directory and back, index page swapped, '<name>.html' appearing next to a name, "
+    "working directory changed): every answer is judged against the tree as it is at that moment",
     "layouts": "Hypothesis: generated layouts x generated paths, same oracle",
 }
+# Outside the quantified domain (not generated, see the report of the strengthening pass):
+#  - request paths that are not valid UTF-8 (WSGI falls back to the Latin-1 reading of PATH_INFO, so the bytes '/caf%E9.txt' reach
+#    'caf\u00e9.txt'; ASGI answers 404) and files whose names on disk are not UTF-8;
+#  - an ASGI scope with server=None and no Host header (the pages redirect is then a bare path: '//dir' -> Location '//dir/').
 ASSUMPTIONS = [
-    "no symbolic links (the statement says 'lexically'); POSIX path semantics",
+    "no symbolic links (the statement says 'lexically'); POSIX path semantics; file names and request paths are valid UTF-8; "
+    "the server address or a Host header is known",
     "non-canonical URLs (dot segments, doubled slashes) may be served per the safety rule or answered not-found / "
     "(Pages, directory) redirected; when both d/ and d.html exist /d may redirect or serve d.html; a directory without index page may redirect or 404",
+    "a URL that already ends in '.html' need not fall back to '<that>.html'; "
+    "with request validators a 304 (empty body) stands for the 200 it replaces - which of the two is C14's business; "
+    "not-found may come from HTTPException(404) or from the configured handle_404 application",
 ]
 
 _ROOTS = {}
+_INHERITED = []
 
 
 def _reset():
     _ROOTS.clear()
+    # A forked worker inherits the parent's event loop, whose epoll object is SHARED with the parent.  If the worker lets that
+    # loop be garbage-collected, BaseEventLoop.__del__ closes it, which unregisters the self-pipe from the shared epoll set: the
+    # parent then never hears its executor threads again (seen as "real-loop coroutine timed out").  Keep it alive, untouched.
+    import asyncio
+
+    _INHERITED.append(getattr(getattr(asyncio.get_event_loop_policy(), "_local", None), "_loop", None))
+
+
+def _park_loop():
+    """Before worker processes are forked: finish the parent's event loop (executor threads joined, selector closed), so that
+    nothing of it is shared with the workers.  gateways.loop() makes a new one on demand."""
+    lp = gw._LOOP
+    if lp is not None and not lp.is_closed() and not lp.is_running():
+        lp.run_until_complete(lp.shutdown_default_executor())
+        lp.close()
 
 
 core.AFTER_FORK.append(_reset)
+
+SOCKET = ["socket"]  # layout value: a unix socket (neither regular file nor directory)
 
 LAYOUT_A = {
     "secret.txt": "OUTER-SECRET",
@@ -67,6 +112,26 @@ LAYOUT_A = {
     "S/static/secret.txt": None,
     "S/static/static/file.txt": None,
     "S/static/100%/a?b#c.txt": None,
+    # (added by the strengthening pass) a stem with a dot that only exists as '<stem>.html'; upper-case names; an empty file;
+    # a directory that has an index page AND a '<dir>.html' twin; directories whose names need escaping in a Location
+    "S/static/v1.2.html": None,
+    "S/static/README.TXT": None,
+    "S/static/Dir/index.html": None,
+    "S/static/Dir/Index.html": None,
+    "S/static/empty.txt": "",
+    "S/static/d3/index.html": None,
+    "S/static/d3.html": None,
+    "S/static/dé/index.html": None,
+    "S/static/q?d#e%/index.html": None,
+    "S/static/dir/sp ace/index.html": None,
+    # look-alikes of the names the pages app may add: none of them is 'index.html' / '<name>.html'
+    "S/static/h1/index.htm": None,
+    "S/static/h2.htm": None,
+    "S/static/h3.HTML": None,
+    "S/static/Dir2/Index.html": None,
+    "S/static/h4/index.html.bak": None,
+    "S/static/deep/1/2/3/4/5/6/7/8/9/10/f.txt": None,
+    "S/static/deep/1/2/3/4/5/6/7/8/9/10/index.html": None,
 }
 LAYOUT_B = {
     "secret.txt": "OUTER-SECRET",
@@ -86,15 +151,67 @@ LAYOUT_B = {
     "S/static/odd2.html/file.txt": None,
 }
 
+# hostile but legal names (one path segment each, valid UTF-8, at most 250 bytes so that '<name>.html' still fits NAME_MAX)
+ODD_NAMES = [
+    "UPPER.TXT", "MiXed", "a b.txt", " lead", "trail ", "a+b.txt", "a\\b.txt", "dir\\file.txt", "back\\", "c:d.txt", "C:", "~", "~root",
+    "$HOME", "${PATH}", "%HOME%", "%41", "a%20b", "a*b", "?", "q?x=1", "#frag", "[a].txt", "{x}", "a;b=c", "a&b", "a@b", "a,b", "a'b",
+    'a"b', "a<b>", "a|b", "tab\tname", "nl\nname", "cr\rname", "esc\x1bname", "del\x7fname", "e\u0301.txt", "\u00fc.txt", "\u212b", "\ufb01le",
+    "\U0001f600.txt", "\u202etxt.exe", "\u00a0", "name.", "name..", "a..b", ". ", ".. ", "-", "--help", "CON", "nul", "Index.html",
+    "INDEX.HTML", "index.HTML", "n" * 250, "\u00e9" * 125,
+]
+# names with TAB, LF or CR also as directories with and without index page: the redirect must keep them (repaired in /repo by
+# 5bdbd98 - urlsplit() used to delete these three characters from the Location; regression: replays/C07/reg-pages-line-break-directory.json)
+LINE_BREAK_NAMES = ("tab\tname", "nl\nname", "cr\rname")
 
-def materialise(layout):
-    """-> dict(outer, site, static, sitename, files {relpath under outer: content})"""
+
+def _layout_n():
+    lay = {
+        "secret.txt": "OUTER-SECRET",
+        "S/secret.txt": "SITE-SECRET",
+        "S/static.html": "SITE-STATIC-HTML",
+        "S/static2/file.txt": "SIBLING-FILE",
+        "S/a b.txt": "SITE-BLANK-NAME",
+        "S/upper.txt": "SITE-LOWER-UPPER",
+        "S/static/index.html": None,
+        "S/static/file.txt": None,
+        "S/static/dir/file.txt": None,  # what 'dir\\file.txt' becomes when a backslash is taken for a separator
+        "S/static/sock": SOCKET,
+        "S/static/dirs/sock2": SOCKET,
+        "S/static/sock3.html": SOCKET,
+    }
+    for n in ODD_NAMES:
+        lay["S/static/" + n] = None
+        lay["S/static/dirs/" + n + "/index.html"] = None
+        lay["S/static/tw/" + n + ".html"] = None
+    for n in LINE_BREAK_NAMES + ("a b", "q?x", "\u00e9"):
+        lay["S/static/noidx/" + n + "/inner.txt"] = None  # directory without index page: redirect (then 404) or 404
+    return lay
+
+
+LAYOUT_N = _layout_n()
+
+
+def _mksocket(path):
+    cwd = os.getcwd()
+    s = socket.socket(socket.AF_UNIX, socket.SOCK_STREAM)
+    try:
+        os.chdir(os.path.dirname(path))  # sun_path is short: bind by the bare name
+        s.bind(os.path.basename(path))
+    finally:
+        os.chdir(cwd)
+        s.close()
+
+
+def materialise(layout, fresh=False):
+    """-> dict(outer, site, static, sitename, files {relpath under outer: content}, specials {relpath: kind}).
+    fresh=True: a private tree that the caller may change (not cached)."""
     key = core.canon(layout)
-    if key in _ROOTS:
+    if not fresh and key in _ROOTS:
         return _ROOTS[key]
     outer = tmpfiles.workdir("verif_c07_")
     sitename = "site_" + os.path.basename(outer).replace("-", "_").replace(".", "_")
     files = {}
+    specials = {}
     for rel, content in layout.items():
         rel = rel.replace("S/", sitename + "/", 1) if rel.startswith("S/") else rel
         if os.path.basename(rel) in ("..", ".") or ".../" in rel and False:
@@ -103,6 +220,12 @@ def materialise(layout):
         try:
             os.makedirs(os.path.dirname(path), exist_ok=True)
             if os.path.isdir(path):
+                continue
+            if isinstance(content, (list, tuple)):
+                if list(content) != SOCKET:
+                    raise core.HarnessError(f"unknown special entry {content!r}")
+                _mksocket(path)
+                specials[rel] = "socket"
                 continue
             data = (content if content is not None else "FILE:" + rel).encode("utf-8")
             with open(path, "wb") as fh:
@@ -116,9 +239,24 @@ def materialise(layout):
     # sub-package "<outer>.<site>" (mode "dotted-package")
     with open(os.path.join(outer, "__init__.py"), "w") as fh:
         fh.write("")
-    info = {"outer": outer, "site": os.path.join(outer, sitename), "static": os.path.join(outer, sitename, "static"), "sitename": sitename, "files": files}
-    _ROOTS[key] = info
+    info = {"outer": outer, "site": os.path.join(outer, sitename), "static": os.path.join(outer, sitename, "static"), "sitename": sitename,
+            "files": files, "specials": specials}
+    info["inside"], info["dirs"] = _inside(info)
+    if not fresh:
+        _ROOTS[key] = info
     return info
+
+
+def _inside(info):
+    """(regular files below the configured directory {relative path: content}, directories below it)"""
+    static_rel = info["sitename"] + "/static"
+    inside = {rel[len(static_rel) + 1:]: data for rel, data in info["files"].items() if rel.startswith(static_rel + "/")}
+    dirs = set()
+    for rel in list(inside) + [rel[len(static_rel) + 1:] for rel in info["specials"] if rel.startswith(static_rel + "/")]:
+        parts = rel.split("/")
+        for i in range(1, len(parts)):
+            dirs.add("/".join(parts[:i]))
+    return inside, dirs
 
 
 BASE = ["<outer>", "<site>", "static"]  # symbolic position of the configured directory
@@ -152,28 +290,48 @@ def is_canonical(path):
     return all(s not in ("", ".", "..") for s in segs)
 
 
-def build_app(info, kind, side, mode, mounted):
+# a not-found application that is no part of baize (handle_404=...)
+def _nf_wsgi(environ, start_response):
+    start_response("404 Not Found", [("Content-Type", "text/plain"), ("X-Handler", "c07")])
+    return [b"NF-HANDLER"]
+
+
+async def _nf_asgi(scope, receive, send):
+    await send({"type": "http.response.start", "status": 404, "headers": [(b"content-type", b"text/plain"), (b"x-handler", b"c07")]})
+    await send({"type": "http.response.body", "body": b"NF-HANDLER"})
+
+
+def build_app(info, kind, side, mode, mounted, h404=False):
     M = W if side == "wsgi" else A
     cls = M.Files if kind == "files" else M.Pages
+    kw = {"handle_404": _nf_wsgi if side == "wsgi" else _nf_asgi} if h404 else {}
     cwd = os.getcwd()
     try:
         if mode == "absolute":
-            app = cls(info["static"])
+            app = cls(info["static"], **kw)
+        elif mode == "absolute-slash":
+            app = cls(info["static"] + "/", **kw)
+        elif mode == "absolute-unnormalised":
+            app = cls(os.path.join(info["site"], "static2", "..", ".", "static"), **kw)
+        elif mode == "pathlike":
+            import pathlib
+
+            app = cls(pathlib.Path(info["static"]), **kw)
         elif mode == "relative":
             os.chdir(info["site"])
-            app = cls("static")
+            app = cls("static", **kw)
         elif mode == "relative-dot":
             os.chdir(info["site"])
-            app = cls("./static/")
+            app = cls("./static/", **kw)
         elif mode == "package":
             if info["outer"] not in sys.path:
                 sys.path.insert(0, info["outer"])
-            app = cls("static", package=info["sitename"])
+            app = cls("static", package=info["sitename"], **kw)
         elif mode == "dotted-package":
             parent = os.path.dirname(info["outer"])
             if parent not in sys.path:
                 sys.path.insert(0, parent)
-            app = cls("static", package=os.path.basename(info["outer"]) + "." + info["sitename"])
+            app = cls("static", package=os.path.basename(info["outer"]) + "." + info["sitename"], **kw)
         else:
             raise core.HarnessError(mode)
     finally:
@@ -183,51 +341,86 @@ def build_app(info, kind, side, mode, mounted):
     return app
 
 
-def request(app, side, path, mounted):
-    rq = gw.areq(path=("/mnt" + path) if mounted else path)
+def request(app, side, path, mounted, headers=(), minimal=False):
+    """minimal=True: the server leaves out what it may leave out - CGI variables whose value is empty (PEP 3333: SCRIPT_NAME,
+    PATH_INFO, QUERY_STRING), REMOTE_*; optional scope keys (root_path, raw_path, client).  The mount is then the server's:
+    SCRIPT_NAME / root_path '/mnt' instead of a Subpaths object (the caller passes the bare app)."""
+    if not minimal:
+        rq = gw.areq(path=("/mnt" + path) if mounted else path, headers=headers)
+    else:
+        rq = gw.areq(path=path, headers=headers, root_path="/mnt" if mounted else "", client=None)
     vfs.arm()
     try:
-        run = gw.call_wsgi(app, rq) if side == "wsgi" else gw.call_asgi(app, rq)
+        if not minimal:
+            run = gw.call_wsgi(app, rq) if side == "wsgi" else gw.call_asgi(app, rq)
+        elif side == "wsgi":
+            environ = gw.make_environ(rq)
+            for key in ("SCRIPT_NAME", "PATH_INFO", "QUERY_STRING"):
+                if environ[key] == "":
+                    del environ[key]
+            run = gw.run_wsgi(app, environ)
+        else:
+            scope = gw.make_scope(rq)
+            del scope["raw_path"], scope["client"]
+            if not mounted:
+                del scope["root_path"]
+            run = gw.run_sync(gw.run_asgi(app, scope, ()))
     finally:
         opened = vfs.disarm()
     return run, opened
+
+
+REDIRECTS = (301, 302, 303, 307, 308)
 
 
 def oracle(case) -> Result:
     r = Result()
     info = materialise(case["layout"])
     kind, side, mode, mounted, path = case["kind"], case["side"], case["mode"], case["mounted"], case["path"]
-    files = info["files"]
+    minimal = case.get("minimal", False)
+    app = build_app(info, kind, side, mode, mounted and not minimal, case.get("h404", False))
+    run, opened = request(app, side, path, mounted, case.get("headers") or (), minimal)
+    judge(r, info, case, app, run, opened)
+    _labels(r, case, run.status_code if run.exc is None else None)
+    r.key = (core.canon(case["layout"])[:40], kind, side, mode, mounted, path, case.get("h404", False), core.canon(case.get("headers") or []), minimal)
+    return r
+
+
+def judge(r, info, case, app, run, opened, where=""):
+    """Judge one answer against the tree described by info (outer, static, sitename, files, inside, dirs)."""
+    kind, side, mode, mounted, path = case["kind"], case["side"], case["mode"], case["mounted"], case["path"]
+    headers = case.get("headers") or ()
+    cond = any(k.lower() in ("if-none-match", "if-modified-since") for k, _ in headers)
+    files, inside, dirs = info["files"], info["inside"], info["dirs"]
     static_rel = info["sitename"] + "/static"
-    inside = {rel[len(static_rel) + 1:]: data for rel, data in files.items() if rel.startswith(static_rel + "/")}
-    dirs = set()
-    for rel in inside:
-        parts = rel.split("/")
-        for i in range(1, len(parts)):
-            dirs.add("/".join(parts[:i]))
-    ctx = f"{kind} {side} mode={mode} mounted={mounted} path {path!r}"
-    app = build_app(info, kind, side, mode, mounted)
-    run, opened = request(app, side, path, mounted)
+    ctx = f"{where}{kind} {side} mode={mode} mounted={mounted}" + (" handle_404" if case.get("h404") else "") + (f" headers={list(map(list, headers))}" if headers else "") + f" path {path!r}"
     if run.exc is not None:
         r.fail(f"C07:{side}:raised:{type(run.exc).__name__}", f"{ctx}: {type(run.exc).__name__}: {run.exc}")
-        _labels(r, case, None)
-        return r
+        return
     status = run.status_code
+
+    def is_the(content):
+        """the answer is this file (200 with exactly its content; with request validators also the 304 that stands for it)"""
+        return (status == 200 and run.body == content) or (cond and status == 304 and run.body == b"")
+
     segs = resolve(path, info["sitename"])
     target = "/".join(segs) if segs is not None else None
     # audit: nothing of the surrounding tree outside the directory is opened
     for p in opened:
         if p.startswith(info["outer"] + os.sep) and not (p == info["static"] or p.startswith(info["static"] + os.sep)):
             r.fail(f"C07:{side}:opened-outside-directory", f"{ctx}: opened {p[len(info['outer']):]!r}")
+    # rule 0: the only answers there are: a file (200/206, 304 for a validator), not-found, and the pages app's redirect
+    if not (status in (200, 206, 404) or (cond and status == 304) or (kind == "pages" and status in REDIRECTS)):
+        r.fail(f"C07:{side}:{kind}:unexpected-status", f"{ctx}: status {status} Location {run.get('location')!r} body {run.body[:40]!r}")
     # rule 1: safety
+    cands = []
+    if target is not None:
+        cands.append(target)
+        if kind == "pages":
+            cands.append(target + ".html")
+            if path.endswith("/") or target == "":
+                cands.append((target + "/" if target else "") + "index.html")
     if status in (200, 206):
-        cands = []
-        if target is not None:
-            cands.append(target)
-            if kind == "pages":
-                cands.append(target + ".html")
-                if path.endswith("/") or target == "":
-                    cands.append((target + "/" if target else "") + "index.html")
         served = [c for c in cands if c in inside and inside[c] == run.body]
         if not served:
             which = [rel for rel, data in files.items() if data == run.body]
@@ -235,78 +428,99 @@ def oracle(case) -> Result:
                 f"C07:{side}:{kind}:served-wrong-file" + (":outside" if which and not which[0].startswith(static_rel + "/") else ""),
                 f"{ctx}: status {status} body {run.body[:60]!r} is the content of {which!r}; lexical resolution gives {target!r} (candidates {cands!r})",
             )
+    if status == 304 and cond:
+        # "not modified" speaks about a file: there must be one that a 200 could have carried
+        if not any(c in inside for c in cands) or run.body != b"":
+            r.fail(f"C07:{side}:{kind}:not-modified-without-file", f"{ctx}: status 304 body {run.body[:40]!r}; lexical resolution gives {target!r}, no regular file among {cands!r}")
     # rule 2: escape paths
     if segs is None and status != 404:
         r.fail(f"C07:{side}:{kind}:escape-not-404", f"{ctx}: path climbs above the directory, status {status} body {run.body[:40]!r} Location {run.get('location')!r}")
-    # rule 3: completeness on canonical URLs
-    if segs is not None and is_canonical(path):
+    # rule 2b: whenever the pages app redirects, it is from a directory URL without trailing slash to the same URL plus '/'
+    canonical = segs is not None and (is_canonical(path) or (mounted and path == ""))
+    if kind == "pages" and status in REDIRECTS and segs is not None and (mounted or path.startswith("/")):
+        if path.endswith("/"):
+            r.fail(f"C07:{side}:pages:redirect-on-slash-url", f"{ctx}: status {status} Location {run.get('location')!r}")
+        elif not (target in dirs or target == ""):
+            r.fail(f"C07:{side}:pages:redirect-for-non-directory", f"{ctx}: status {status} Location {run.get('location')!r}, but {target!r} is no directory")
+        elif not canonical:
+            check_redirect(r, info, app, case, run, path, ctx, False)
+    # rule 3: completeness on canonical URLs ('/mnt' itself, which a mount hands over as '', is the root directory without slash)
+    if canonical:
         trailing = path.endswith("/") and path != "/"
         if kind == "files" and trailing:
             # a URL ending in '/' is no regular file's own path ("every other path yields not-found"; the
             # statement itself tells '/d' and '/d/' apart): the file app has nothing to serve there
             if status != 404:
                 r.fail("C07:%s:files:trailing-slash-served" % side, f"{ctx}: URL with trailing slash, lexical target {target!r}: status {status} body {run.body[:40]!r}")
-        elif kind == "files" or not (trailing or target == ""):
+        elif kind == "files" or not (trailing or path == "/"):
             if target in inside and not trailing:
-                if status != 200 or run.body != inside[target]:
+                if not is_the(inside[target]):
                     r.fail(f"C07:{side}:{kind}:file-not-served", f"{ctx}: regular file {target!r} exists inside the directory, got status {status} body {run.body[:40]!r}")
             elif kind == "files":
                 if status != 404:
                     r.fail(f"C07:{side}:files:expected-404", f"{ctx}: no regular file at {target!r}, got status {status}")
             else:  # pages, no trailing slash, not a regular file
-                if target in dirs:
+                if target in dirs or target == "":
                     html_twin = (target + ".html") in inside
-                    if status in (301, 302, 303, 307, 308):
-                        check_redirect(r, info, app, case, run, path, inside, ctx)
-                    elif status == 200 and html_twin and run.body == inside[target + ".html"]:
+                    if status in REDIRECTS:
+                        check_redirect(r, info, app, case, run, path, ctx, True)
+                    elif html_twin and is_the(inside[target + ".html"]):
                         pass
-                    elif status == 404 and ((target + "/index.html") not in inside):
+                    elif status == 404 and (((target + "/" if target else "") + "index.html") not in inside):
                         pass
                     else:
                         r.fail(f"C07:{side}:pages:directory-url", f"{ctx}: directory URL without slash: status {status} body {run.body[:40]!r}")
                 elif (target + ".html") in inside:
-                    if status != 200 or run.body != inside[target + ".html"]:
+                    if target.endswith(".html") and status == 404:
+                        pass  # '/a.html' is asked for as a page already: no obligation to try 'a.html.html' (rule 1 allows it)
+                    elif not is_the(inside[target + ".html"]):
                         r.fail(f"C07:{side}:pages:html-fallback", f"{ctx}: only {target + '.html'!r} exists, got status {status} body {run.body[:40]!r}")
                 elif status != 404:
                     r.fail(f"C07:{side}:pages:expected-404", f"{ctx}: nothing at {target!r}, got status {status}")
         else:  # pages, directory URL with trailing slash (or the root)
             index = (target + "/" if target else "") + "index.html"
             if (target in dirs or target == "") and index in inside:
-                if status != 200 or run.body != inside[index]:
+                if not is_the(inside[index]):
                     r.fail(f"C07:{side}:pages:index-not-served", f"{ctx}: {index!r} exists, got status {status} Location {run.get('location')!r} body {run.body[:40]!r}")
             elif target in dirs or target == "":
-                if status not in (404, 301, 302, 303, 307, 308):
+                if status != 404:
+                    # (a redirect from a URL that already ends in '/' would have to go to '...//')
                     r.fail(f"C07:{side}:pages:dir-without-index", f"{ctx}: status {status}")
             elif target in inside and status != 404:
                 # '/a.txt/' names the index page of a directory 'a.txt', which does not exist
                 r.fail(f"C07:{side}:pages:trailing-slash-on-file-served", f"{ctx}: {target!r} is a regular file, not a directory: status {status} body {run.body[:40]!r}")
             # trailing slash on a missing name: rules 1/2 only
-    _labels(r, case, status)
-    r.key = (core.canon(case["layout"])[:40], kind, side, mode, mounted, path)
-    return r
 
 
-def check_redirect(r, info, app, case, run, path, inside, ctx):
+def check_redirect(r, info, app, case, run, path, ctx, canonical):
     side, mounted = case["side"], case["mounted"]
+    inside = info["inside"]
     loc = run.get("location")
     if not loc:
         r.fail(f"C07:{side}:pages:redirect-without-location", ctx)
         return
-    req_url = "http://testserver" + ("/mnt" if mounted else "") + path
+    req_url = "http://testserver" + quote(("/mnt" if mounted else "") + path)
     final = urljoin(req_url, loc)
     parts = urlsplit(final)
+    if parts.netloc != "testserver":
+        r.fail(f"C07:{side}:pages:redirect-target", f"{ctx}: Location {loc!r} resolves to {final!r}: another host")
+        return
+    if not canonical and any(s in (".", "..") for s in path.split("/")):
+        return  # a client removes dot segments before it follows: only slash-only spellings are compared literally
     got = unquote(parts.path)
     if mounted:
         if not got.startswith("/mnt"):
             r.fail(f"C07:{side}:pages:redirect-leaves-mount", f"{ctx}: Location {loc!r} -> {final!r}")
             return
         got = got[len("/mnt"):]
-    if parts.netloc != "testserver" or got != path + "/":
+    if got != path + "/":
         r.fail(f"C07:{side}:pages:redirect-target", f"{ctx}: Location {loc!r} resolves to {final!r}, expected the same URL plus '/'")
         return
-    run2, _ = request(app, side, got, mounted)
+    if not canonical:
+        return
+    run2, _ = request(app, side, got, mounted, (), case.get("minimal", False))
     target = "/".join(resolve(path, info["sitename"]))
-    index = target + "/index.html"
+    index = (target + "/" if target else "") + "index.html"
     if index in inside:
         if run2.exc is not None or run2.status_code != 200 or run2.body != inside[index]:
             r.fail(f"C07:{side}:pages:redirect-does-not-reach-index", f"{ctx}: following the redirect to {got!r} gives status {run2.status_code} Location {run2.get('location')!r}, expected {index!r}")
@@ -314,14 +528,28 @@ def check_redirect(r, info, app, case, run, path, inside, ctx):
         r.fail(f"C07:{side}:pages:redirect-then", f"{ctx}: directory without index: following the redirect gives status {run2.status_code}")
 
 
+_PLAIN = set("abcdefghijklmnopqrstuvwxyz0123456789._-/%")
+
+
 def _labels(r, case, status):
     path = case["path"]
     segs = path.split("/")
     nt = ".." in segs or any(s.startswith(".") and s not in ("", ".") for s in segs) or "%2e%2e" in segs or any(s in ("secret.txt", "static2", "static.html", "staticfile", "SITE") for s in segs)
-    if case["kind"] == "pages" and (path.endswith("/") or "dir" in segs or "d2" in segs):
+    if case["kind"] == "pages" and (path.endswith("/") or "dir" in segs or "d2" in segs or "dirs" in segs):
+        nt = True
+    odd = not set(path) <= _PLAIN
+    if odd or case.get("headers"):
         nt = True
     r.nontrivial = nt
     r.label(f"kind={case['kind']}", f"side={case['side']}", f"mode={case['mode']}", "mounted" if case["mounted"] else "bare", f"status={status}")
+    if case.get("h404"):
+        r.label("handle_404")
+    if case.get("headers"):
+        r.label("validators")
+    if case.get("minimal"):
+        r.label("minimal-environ")
+    if odd:
+        r.label("odd-name")
     if resolve(path) is None and resolve(path, "SITE") is None:
         r.label("escape")
     elif ".." in segs:
@@ -333,8 +561,9 @@ SUBS = {"grid": oracle, "layouts": oracle}
 # ------------------------------------------------------------------------------------------
 
 SEGMENTS = ["", ".", "..", "file.txt", "dir", "..name", ".hidden", "%2e%2e", "index.html", "x", "x.html", "y", "d2", "missing", "é.txt",
-            "secret.txt", "static", "static2", "static.html", "staticfile", "SITE", "sub", "...", "100%", "a?b#c.txt", "other", "otherdir"]
-MODES = ["absolute", "relative", "package", "absolute", "relative-dot", "dotted-package"]
+            "secret.txt", "static", "static2", "static.html", "staticfile", "SITE", "sub", "...", "100%", "a?b#c.txt", "other", "otherdir",
+            "v1.2", "Dir", "README.TXT", "d3"]
+MODES = ["absolute", "relative", "package", "absolute", "relative-dot", "dotted-package", "absolute-slash", "pathlike", "absolute-unnormalised"]
 
 
 def grid_paths(depth):
@@ -367,6 +596,8 @@ def grid_shard(rec, k, nshards, depth, stride):
                 mode = MODES[(i + j) % len(MODES)]
                 mounted = ((i + j) // len(MODES)) % 3 == 0
                 case = {"layout": layout, "kind": kind, "side": side, "mode": mode, "mounted": mounted, "path": path}
+                if (i // 7 + j) % 4 == 0:
+                    case["h404"] = True
                 res = g(case)
                 rec.count("grid", case, res)
                 new, old = rec.split(res)
@@ -376,24 +607,31 @@ def grid_shard(rec, k, nshards, depth, stride):
                     rec.skip.add(f.bucket)
 
 
+def _entries(info):
+    """every file and directory below the configured directory (relative paths), specials included"""
+    static_rel = info["sitename"] + "/static/"
+    rels = set()
+    for rel in list(info["files"]) + list(info["specials"]):
+        if rel.startswith(static_rel):
+            parts = rel[len(static_rel):].split("/")
+            for i in range(1, len(parts) + 1):
+                rels.add("/".join(parts[:i]))
+    return sorted(rels)
+
+
+DECOYS = ["../secret.txt", "../../secret.txt", "../static.html", "../static2/file.txt", "../staticfile", "../static2/", "../static2",
+          "../" + "static/../secret.txt", "..", "../", "../..", "%2e%2e/secret.txt", "..%2fsecret.txt", "../__init__.py", "../other", "../other.html", "../otherdir/", "../otherdir", "../otherdir/index",
+          "../static2/index"]
+
+
 def variant_cases():
     """For every file and directory of the fixed layouts (and every decoy): the exact URL and its
     non-canonical / escaping / re-entering variants."""
     n = 0
     for layout in (LAYOUT_A, LAYOUT_B):
         info = materialise(layout)
-        static_rel = info["sitename"] + "/static/"
-        rels = set()
-        for rel in info["files"]:
-            if rel.startswith(static_rel):
-                parts = rel[len(static_rel):].split("/")
-                for i in range(1, len(parts) + 1):
-                    rels.add("/".join(parts[:i]))
-        decoys = ["../secret.txt", "../../secret.txt", "../static.html", "../static2/file.txt", "../staticfile", "../static2/", "../static2",
-                  "../" + "static/../secret.txt", "..", "../", "../..", "%2e%2e/secret.txt", "..%2fsecret.txt", "../__init__.py", "../other", "../other.html", "../otherdir/", "../otherdir", "../otherdir/index",
-                  "../static2/index"]
         paths = []
-        for rel in sorted(rels):
+        for rel in _entries(info):
             base = "/" + rel
             stem = base[:-5] if base.endswith(".html") else None
             paths += [base, base + "/", "/." + base, "//" + rel, base + "/.", base + "/..", "/zz/.." + base, "/../static" + base,
@@ -401,15 +639,256 @@ def variant_cases():
                       "/dir/.." + base, base + "/../" + rel.split("/")[-1]]
             if stem:
                 paths += [stem, stem + "/"]
-        paths += ["/" + d for d in decoys] + ["/dir/../" + d for d in decoys] + ["/", "", "/index.html", "/."]
+            for ext in (".htm", ".HTML", ".bak"):
+                if base.endswith(ext):
+                    paths += [base[: -len(ext)], base[: -len(ext)] + "/"]
+        paths += ["/" + d for d in DECOYS] + ["/dir/../" + d for d in DECOYS] + ["/", "", "/index.html", "/."]
         for path in paths:
             for kind in ("files", "pages"):
                 for side in ("wsgi", "asgi"):
                     n += 1
-                    yield {"layout": layout, "kind": kind, "side": side, "mode": MODES[n % len(MODES)], "mounted": (n // 5) % 3 == 0, "path": path}
+                    case = {"layout": layout, "kind": kind, "side": side, "mode": MODES[n % len(MODES)], "mounted": (n // 5) % 3 == 0, "path": path}
+                    if (n // 4) % 3 == 1:
+                        case["h404"] = True
+                    yield case
+        # the mount point itself: '/mnt' reaches the app as path '' - the root directory without trailing slash
+        for path in ("", "/", "//", "/."):
+            for kind in ("files", "pages"):
+                for side in ("wsgi", "asgi"):
+                    for h404 in (False, True):
+                        n += 1
+                        yield {"layout": layout, "kind": kind, "side": side, "mode": MODES[n % len(MODES)], "mounted": True, "path": path, "h404": h404}
+        # the same through a server that owns the mount (SCRIPT_NAME / root_path) and omits every optional key
+        for path in ("", "/", "/dir", "/dir/", "/file.txt", "/x", "/y", "/missing", "/../secret.txt", "//dir", "/d2", "/dé"):
+            for kind in ("files", "pages"):
+                for side in ("wsgi", "asgi"):
+                    for mounted in (False, True):
+                        if path == "" and not mounted:
+                            continue
+                        n += 1
+                        yield {"layout": layout, "kind": kind, "side": side, "mode": MODES[n % len(MODES)], "mounted": mounted, "path": path, "minimal": True}
 
 
-_names = st.sampled_from(["a", "b.txt", "index.html", "p.html", "p", "..x", ".h", "%2e%2e", "é", "d", "e", "secret.txt", "static2", "q.html", "..."])
+# ---- names ---------------------------------------------------------------------------------
+
+
+def _per_segment(fn):
+    return lambda p: "/".join(fn(s) for s in p.split("/"))
+
+
+_ALIASES = [
+    str.lower,
+    str.upper,
+    str.swapcase,
+    lambda p: unicodedata.normalize("NFC", p),
+    lambda p: unicodedata.normalize("NFD", p),
+    lambda p: unicodedata.normalize("NFKC", p),
+    lambda p: p.replace("\\", "/"),
+    lambda p: "/" + p[1:].replace("/", "\\"),
+    lambda p: p.replace("+", " "),
+    lambda p: p.replace(" ", "+"),
+    lambda p: p.replace(" ", "%20"),
+    lambda p: p.replace(":", ""),
+    _per_segment(str.strip),
+    _per_segment(lambda s: s.rstrip(". ") or s),
+    lambda p: p + " ",
+    lambda p: p + ".",
+    lambda p: "/ " + p[1:],
+    lambda p: quote(p),
+    lambda p: quote(p, safe="/~:@!$&'()*+,;="),
+    lambda p: unquote(p),
+    lambda p: p.replace("\t", "").replace("\n", "").replace("\r", ""),
+    lambda p: p.split("?")[0].split("#")[0],
+    lambda p: p.split(";")[0],
+]
+
+
+def names_paths(info):
+    """own URLs of every entry of the hostile-name layout and their near-miss spellings (canonical URLs only): [(path, is own URL)]"""
+    own = []
+    for rel in _entries(info):
+        base = "/" + rel
+        own += [base, base + "/"]
+        if base.endswith(".html"):
+            own += [base[:-5], base[:-5] + "/"]
+    own += ["/", "/index", "/missing", "/dirs", "/tw"]
+    seen = set()
+    out = []
+    for p in own:
+        for q in [p] + [fn(p) for fn in _ALIASES]:
+            if q in seen or not is_canonical(q) or "\x00" in q:
+                continue
+            seen.add(q)
+            out.append((q, q == p))
+    return out
+
+
+def names_cases(quick=True):
+    info = materialise(LAYOUT_N)
+    n = 0
+    for i, (path, own) in enumerate(names_paths(info)):
+        for kind in ("files", "pages"):
+            for side in ("wsgi", "asgi"):
+                if quick and not own and (i + (kind == "pages") + (side == "asgi")) % 2:
+                    continue  # quick tier: a near-miss spelling goes to two of the four kind x side combinations (alternating)
+                n += 1
+                mode = MODES[n % len(MODES)]
+                mounted = (n // 4) % 2 == 0
+                yield {"layout": LAYOUT_N, "kind": kind, "side": side, "mode": mode, "mounted": mounted, "path": path, "h404": (n // 8) % 4 == 3}
+                if not quick:
+                    yield {"layout": LAYOUT_N, "kind": kind, "side": side, "mode": MODES[(n + 4) % len(MODES)], "mounted": not mounted, "path": path}
+
+
+# ---- conditional ----------------------------------------------------------------------------
+
+FUTURE = "Fri, 01 Jan 2100 00:00:00 GMT"
+VALIDATORS = [
+    [["If-None-Match", "*"]],
+    [["If-Modified-Since", FUTURE]],
+    [["If-None-Match", '"no-such-tag"'], ["If-Modified-Since", FUTURE]],
+    [["If-None-Match", '"no-such-tag", W/"another"']],
+    [["If-Modified-Since", FUTURE], ["If-None-Match", "*"]],
+]
+
+
+def conditional_cases():
+    n = 0
+    for layout in (LAYOUT_A, LAYOUT_B, LAYOUT_N):
+        info = materialise(layout)
+        paths = []
+        entries = _entries(info)
+        if layout is LAYOUT_N:
+            entries = [e for e in entries if e.count("/") == 0 or e.startswith("dirs/sock")][:24] + ["sock", "sock3", "dirs/sock2", "dirs/~"]
+        for rel in entries:
+            base = "/" + rel
+            paths += [base, base + "/", base + "/.", "/../static" + base]
+            if base.endswith(".html"):
+                paths += [base[:-5]]
+        paths += ["/" + d for d in DECOYS] + ["/", "", "/.", "/missing", "/missing/", "/dir/missing", "/missing.html", "/file.txt/x", "/index"]
+        for path in paths:
+            for kind in ("files", "pages"):
+                for side in ("wsgi", "asgi"):
+                    for headers in VALIDATORS:
+                        n += 1
+                        yield {"layout": layout, "kind": kind, "side": side, "mode": MODES[n % len(MODES)], "mounted": (n // 7) % 3 == 0, "path": path,
+                               "headers": headers, "h404": (n // 5) % 4 == 2}
+
+
+# ---- sequence -------------------------------------------------------------------------------
+
+SEQ_LAYOUT = {
+    "secret.txt": "OUTER-SECRET",
+    "S/secret.txt": "SITE-SECRET",
+    "S/static.html": "SITE-STATIC-HTML",
+    "S/a.txt": "SITE-A",
+    "S/static2/a.txt": "SIBLING-A",
+    "S/static/index.html": None,
+    "S/static/a.txt": None,
+    "S/static/d/index.html": None,
+    "S/static/d/f.txt": None,
+    "S/static/p.html": None,
+}
+# steps: ["get", path] | ["put", rel, text] | ["del", rel] | ["rmtree", rel] | ["mkdir", rel] | ["chdir", "outer"|"site"|"static"|"tmp"|"back"]
+SCENARIOS = {
+    "file-appears-changes-disappears": [["get", "/new.txt"], ["put", "new.txt", "v1"], ["get", "/new.txt"], ["put", "new.txt", "version two, which is longer"],
+                                        ["get", "/new.txt"], ["put", "new.txt", "3"], ["get", "/new.txt"], ["put", "new.txt", ""], ["get", "/new.txt"],
+                                        ["del", "new.txt"], ["get", "/new.txt"], ["get", "/a.txt"]],
+    "directory-appears": [["get", "/n"], ["get", "/n/"], ["mkdir", "n"], ["get", "/n"], ["get", "/n/"], ["put", "n/index.html", "N-INDEX"], ["get", "/n"], ["get", "/n/"],
+                          ["get", "/n/index.html"], ["rmtree", "n"], ["get", "/n"], ["get", "/n/"], ["put", "n.html", "N-HTML"], ["get", "/n"], ["get", "/n/"],
+                          ["del", "n.html"], ["get", "/n"]],
+    "file-becomes-directory": [["get", "/a.txt"], ["get", "/a.txt/"], ["del", "a.txt"], ["put", "a.txt/index.html", "A-AS-DIR-INDEX"], ["get", "/a.txt"], ["get", "/a.txt/"],
+                               ["get", "/a.txt/index.html"], ["rmtree", "a.txt"], ["put", "a.txt", "A-BACK"], ["get", "/a.txt"], ["get", "/a.txt/"], ["get", "/a.txt/index.html"]],
+    "directory-becomes-file": [["get", "/d"], ["get", "/d/"], ["get", "/d/f.txt"], ["rmtree", "d"], ["put", "d", "D-AS-FILE"], ["get", "/d"], ["get", "/d/"], ["get", "/d/f.txt"],
+                               ["del", "d"], ["get", "/d"], ["get", "/d/"], ["put", "d/index.html", "D-INDEX-2"], ["get", "/d"], ["get", "/d/"]],
+    "index-swapped": [["get", "/"], ["get", "/index"], ["del", "index.html"], ["get", "/"], ["get", "/index"], ["get", "/index.html"], ["put", "index.html", "NEW-INDEX, longer than before .........."],
+                      ["get", "/"], ["get", "/index"], ["get", "/index.html"]],
+    "html-twin-next-to-name": [["get", "/q"], ["put", "q.html", "Q-HTML"], ["get", "/q"], ["put", "q", "Q-REAL"], ["get", "/q"], ["get", "/q.html"], ["del", "q"], ["get", "/q"],
+                               ["del", "q.html"], ["get", "/q"], ["get", "/p"], ["del", "p.html"], ["get", "/p"], ["get", "/p.html"]],
+    "working-directory-moves": [["get", "/a.txt"], ["chdir", "tmp"], ["get", "/a.txt"], ["get", "/../secret.txt"], ["get", "/d"], ["chdir", "outer"], ["get", "/a.txt"],
+                                ["get", "/../a.txt"], ["chdir", "static"], ["get", "/a.txt"], ["get", "/../secret.txt"], ["get", "/../a.txt"], ["chdir", "site"], ["get", "/a.txt"],
+                                ["get", "/d/"], ["chdir", "back"], ["get", "/a.txt"]],
+    "refused-then-served": [["get", "/../secret.txt"], ["get", "/a.txt"], ["get", "/../static2/a.txt"], ["get", "/a.txt"], ["get", "/d"], ["get", "/a.txt"], ["get", "/missing"],
+                            ["get", "/a.txt"], ["get", "/d/"], ["get", "/p"], ["get", "/a.txt/"], ["get", "/a.txt"], ["get", "/../a.txt"], ["get", "/d/f.txt"], ["get", "/"],
+                            ["get", "/d"], ["get", "/nothing/"], ["get", "/d"], ["get", "/p"], ["get", "/d/"], ["get", "/p.html"], ["get", "/d"]],
+    "same-again": [["get", "/a.txt"], ["get", "/a.txt"], ["get", "/d"], ["get", "/d"], ["get", "/d/"], ["get", "/d/"], ["get", "/p"], ["get", "/p"], ["get", "/missing"], ["get", "/missing"],
+                   ["put", "missing", "FOUND"], ["get", "/missing"], ["get", "/missing"]],
+}
+SEQ_MODES = ["absolute", "relative", "package", "relative-dot", "absolute-slash"]
+
+
+def sequence_cases():
+    n = 0
+    for name in SCENARIOS:
+        for kind in ("files", "pages"):
+            for side in ("wsgi", "asgi"):
+                for mounted in (False, True):
+                    n += 1
+                    yield {"scenario": name, "steps": SCENARIOS[name], "kind": kind, "side": side, "mode": SEQ_MODES[n % len(SEQ_MODES)], "mounted": mounted,
+                           "h404": (n // 3) % 3 == 1}
+
+
+def oracle_sequence(case) -> Result:
+    r = Result()
+    kind, side, mode, mounted = case["kind"], case["side"], case["mode"], case["mounted"]
+    info = materialise(SEQ_LAYOUT, fresh=True)
+    static_rel = info["sitename"] + "/static/"
+    extra_dirs = set()
+    cwd = os.getcwd()
+    added_path = info["outer"] not in sys.path
+    gets = 0
+    try:
+        app = build_app(info, kind, side, mode, mounted, case.get("h404", False))
+        for i, step in enumerate(case["steps"]):
+            op = step[0]
+            if op == "get":
+                gets += 1
+                sub = {"kind": kind, "side": side, "mode": mode, "mounted": mounted, "path": step[1], "h404": case.get("h404", False)}
+                run, opened = request(app, side, step[1], mounted)
+                judge(r, info, sub, app, run, opened, where=f"[{case.get('scenario', '?')} step {i}, after {case['steps'][max(0, i - 2):i]!r}] ")
+                continue
+            if op == "chdir":
+                os.chdir({"outer": info["outer"], "site": info["site"], "static": info["static"], "tmp": os.path.dirname(info["outer"]), "back": cwd}[step[1]])
+                continue
+            full = os.path.join(info["static"], *step[1].split("/"))
+            if op == "put":
+                os.makedirs(os.path.dirname(full), exist_ok=True)
+                data = step[2].encode("utf-8")
+                with open(full, "wb") as fh:
+                    fh.write(data)
+                info["files"][static_rel + step[1]] = data
+            elif op == "del":
+                os.remove(full)
+                del info["files"][static_rel + step[1]]
+            elif op == "mkdir":
+                os.makedirs(full)
+                extra_dirs.add(step[1])
+            elif op == "rmtree":
+                shutil.rmtree(full)
+                for rel in [rel for rel in info["files"] if rel.startswith(static_rel + step[1] + "/")]:
+                    del info["files"][rel]
+                extra_dirs = {d for d in extra_dirs if d != step[1] and not d.startswith(step[1] + "/")}
+            else:
+                raise core.HarnessError(f"unknown step {step!r}")
+            info["inside"], info["dirs"] = _inside(info)
+            info["dirs"] |= extra_dirs
+    finally:
+        os.chdir(cwd)
+        if added_path and info["outer"] in sys.path:
+            sys.path.remove(info["outer"])
+        sys.modules.pop(info["sitename"], None)
+        shutil.rmtree(info["outer"], ignore_errors=True)
+    r.nontrivial = True
+    r.weight = max(1, gets)
+    r.label(f"kind={kind}", f"side={side}", f"mode={mode}", "mounted" if mounted else "bare", f"scenario={case.get('scenario', '?')}")
+    if case.get("h404"):
+        r.label("handle_404")
+    return r
+
+
+# ---- generated layouts ------------------------------------------------------------------------
+
+_names = st.sampled_from(["a", "b.txt", "index.html", "p.html", "p", "..x", ".h", "%2e%2e", "é", "d", "e", "secret.txt", "static2", "q.html", "...",
+                          "v1.2", "v1.2.html", "B.TXT", "a b", "a\\b", "D", "d.html"])
 
 
 @st.composite
@@ -434,7 +913,7 @@ def layout_case(draw):
     if draw(st.integers(0, 4)) == 0:
         base = draw(st.sampled_from(keep))
         path = "/" + base + draw(st.sampled_from(["", "/", ".html", "/index.html", "/..", "/../" + base.split("/")[-1]]))
-    return {
+    case = {
         "layout": layout,
         "kind": draw(st.sampled_from(["files", "pages", "pages"])),
         "side": draw(st.sampled_from(["wsgi", "asgi"])),
@@ -442,6 +921,14 @@ def layout_case(draw):
         "mounted": draw(st.booleans()),
         "path": path,
     }
+    extra = draw(st.integers(0, 5))
+    if extra == 0:
+        case["h404"] = True
+    elif extra == 1:
+        case["headers"] = draw(st.sampled_from(VALIDATORS))
+    elif extra == 2 and case["mounted"]:
+        case["path"] = ""
+    return case
 
 
 def _fix_site(case, info):
@@ -455,16 +942,44 @@ def oracle_layouts(case) -> Result:
 
 SUBS["layouts"] = oracle_layouts
 SUBS["variants"] = oracle
+SUBS["names"] = oracle
+SUBS["conditional"] = oracle
+SUBS["sequence"] = oracle_sequence
+
+
+def enum_shard(rec, k, nshards, sub, quick):
+    """every nshards-th case of an enumerated sub-check (enumeration order kept inside the shard)"""
+    g = core.guarded(oracle)
+    cases = {"names": lambda: names_cases(quick), "conditional": conditional_cases, "variants": variant_cases}[sub]()
+    for i, case in enumerate(cases):
+        if i % nshards != k:
+            continue
+        res = g(case)
+        rec.count(sub, case, res)
+        new, old = rec.split(res)
+        rec.note_known(old)
+        for f in new:
+            rec.add_violation(sub, f, case)
+            rec.skip.add(f.bucket)
 
 
 def run(rec, only=None):
     quick = rec.tier == "quick"
-    if quick:
-        core.run_sharded(rec, grid_shard, 16, core.ncpu(), (3, 40))
-    else:
-        core.run_sharded(rec, grid_shard, 64, core.ncpu(), (3, 1))
+    if only is None or "grid" in only:
+        _park_loop()
+        if quick:
+            core.run_sharded(rec, grid_shard, 16, core.ncpu(), (3, 40))
+        else:
+            core.run_sharded(rec, grid_shard, 64, core.ncpu(), (3, 1))
     rec.exhaustive["grid"] = not quick  # quick: all paths of <= 2 segments, every 40th of 3 segments
-    core.drive_cases(rec, "variants", variant_cases(), oracle)
-    rec.exhaustive["variants"] = True
+    # (the sub-checks that fork worker processes come first: the in-process ones start event-loop threads)
+    for sub in ("variants", "names", "conditional"):
+        if only is None or sub in only:
+            _park_loop()
+            core.run_sharded(rec, enum_shard, 16, core.ncpu(), (sub, quick))
+        rec.exhaustive[sub] = True
+    core.drive_cases(rec, "sequence", sequence_cases(), oracle_sequence)
+    rec.exhaustive["sequence"] = True
+    _park_loop()  # (the thorough tier forks here as well)
     core.drive_hypothesis(rec, "layouts", layout_case(), oracle_layouts, 600 if quick else 10000)
     rec.exhaustive["layouts"] = False
